@@ -19,16 +19,12 @@ func init() {
 		c02quick = append(c02quick, 1000+pi*8+3)
 	}
 	// thorough: every pattern but the 39-byte guid one (its full-length path does not finish within
-	// the hour) under the four CaseSensitive x StrictRouting configurations, five patterns also with
-	// UnescapePath
+	// the hour) under the four CaseSensitive x StrictRouting configurations; the UnescapePath
+	// configurations multiply paths per byte on 11-byte symbolic paths (> 60 000 paths for one case)
+	// and are exercised by C03 and C07 instead
 	var c02all []int
 	for pi := 0; pi < 27; pi++ {
 		for ci := 0; ci < 4; ci++ {
-			c02all = append(c02all, pi*8+ci)
-		}
-	}
-	for _, pi := range []int{0, 11, 14, 19, 22} {
-		for ci := 4; ci < 8; ci++ {
 			c02all = append(c02all, pi*8+ci)
 		}
 	}
@@ -39,7 +35,7 @@ func init() {
 		},
 		Bounds: map[string]string{
 			"quick":    "22 (pattern,config) cases; request path fully symbolic at each listed length <= 7 bytes (and 11/12 bytes = the pattern text length for patterns 0, 11, 21); wire-safe printable ASCII without ?,#,%",
-			"thorough": "27 patterns x 4 routing configs (CaseSensitive x StrictRouting) + 5 patterns x 4 UnescapePath configs; same path lengths; the guid constraint (39-byte path) is explored at the short lengths of the quick tier only",
+			"thorough": "27 patterns x 4 routing configs (CaseSensitive x StrictRouting); same path lengths; the guid constraint (39-byte path) is explored at the short lengths of the quick tier only; UnescapePath configurations are exercised by C03/C07, not here",
 		},
 		Assumptions: []string{
 			"request path bytes are printable ASCII (0x21-0x7e) without '?', '#' ('%' only with UnescapePath), starting with a single '/' (fasthttp treats a leading // as authority)",
